@@ -14,6 +14,7 @@ use sync42::wait_list::WaitList;
 
 mod memtable;
 
+use crate::tree::SnapshotCursor;
 use crate::{
     LOG_FILE, LsmTree, LsmtkOptions, MANI_ROOT, SError, SST_FILE, TEMP_FILE, TEMP_ROOT, TRASH_ROOT,
     corruption, ensure_dir, logic_error, make_all_dirs, parse_log_file,
@@ -532,6 +533,8 @@ impl KeyValueStore {
         let cursor = MergingCursor::new(cursors)?;
         let cursor = PruningCursor::new(cursor, timestamp)?;
         let cursor = BoundsCursor::new(cursor, start_bound, end_bound)?;
-        Ok(cursor)
+        // NOTE:  The version's cursors open their files lazily; the returned cursor must keep the
+        // version referenced or a compaction will move the files to trash under it.
+        Ok(SnapshotCursor::new(cursor, version))
     }
 }
